@@ -124,6 +124,8 @@ impl LanguageServer for Server {
                 return Ok(None);
             };
 
+            #[cfg(feature = "verif")]
+            crate::verif::point("vfs.read.before");
             let vfs = snap.vfs.read().unwrap();
             let lsp_location = to_proto::location(&vfs, &line_index, location);
             Ok(Some(GotoDefinitionResponse::Scalar(lsp_location)))
@@ -141,6 +143,8 @@ impl LanguageServer for Server {
             let Some(location_list) = snap.analysis.references(pos) else {
                 return Ok(None);
             };
+            #[cfg(feature = "verif")]
+            crate::verif::point("vfs.read.before");
             let vfs = snap.vfs.read().unwrap();
             let lsp_location_list = location_list
                 .into_iter()
@@ -224,6 +228,8 @@ impl LanguageServer for Server {
                 return Ok(None);
             };
 
+            #[cfg(feature = "verif")]
+            crate::verif::point("vfs.read.before");
             let vfs = snap.vfs.read().unwrap();
             let lsp_links = links
                 .into_iter()
@@ -255,16 +261,24 @@ impl LanguageServer for Server {
     }
 
     fn did_open(&mut self, params: DidOpenTextDocumentParams) -> Self::NotifyResult {
+        #[cfg(feature = "verif")]
+        crate::verif::point("notify.begin");
         self.set_file_content(&params.text_document.uri, &params.text_document.text);
         self.update_diagnostics();
+        #[cfg(feature = "verif")]
+        crate::verif::point("notify.end");
         ControlFlow::Continue(())
     }
 
     fn did_change(&mut self, params: DidChangeTextDocumentParams) -> Self::NotifyResult {
+        #[cfg(feature = "verif")]
+        crate::verif::point("notify.begin");
         if let Some(change) = params.content_changes.first() {
             self.set_file_content(&params.text_document.uri, &change.text);
             self.update_diagnostics();
         }
+        #[cfg(feature = "verif")]
+        crate::verif::point("notify.end");
         ControlFlow::Continue(())
     }
 }
@@ -272,15 +286,23 @@ impl LanguageServer for Server {
 impl Server {
     fn set_file_content(&mut self, uri: &Url, text: &str) {
         let path = UrlExt::to_file_path(uri);
+        #[cfg(feature = "verif")]
+        crate::verif::point("sfc.vfs_write_1.before");
         let file_id = self.vfs.write().unwrap().assign_or_get_file_id(path);
+        #[cfg(feature = "verif")]
+        crate::verif::point("sfc.db_write.before");
         let text = Arc::from(text);
         // Writing to the database waits until every snapshot has been dropped, and the tasks
         // that own the snapshots take the vfs lock themselves: the vfs lock must not be held
         // here, or a notification arriving while a task is still running deadlocks the server.
         self.host.set_file_content(file_id, text);
+        #[cfg(feature = "verif")]
+        crate::verif::point("sfc.vfs_write_2.before");
         // No snapshot exists any more (only this thread creates them), so the database writes
         // of set_root_file cannot block while the lock is held.
         let mut vfs = self.vfs.write().unwrap();
+        #[cfg(feature = "verif")]
+        crate::verif::point("sfc.vfs_write_2.after");
         self.host.set_root_file(&mut *vfs, file_id);
     }
 
@@ -295,6 +317,8 @@ impl Server {
                     .map(|diag| to_proto::diagnostic(&line_index, diag))
                     .collect();
 
+                #[cfg(feature = "verif")]
+                crate::verif::point("vfs.read.before");
                 let vfs = snap.vfs.read().unwrap();
                 let file_path = vfs.path_for_file(&file_id);
                 let file_uri = UrlExt::from_file_path(file_path);
@@ -321,6 +345,16 @@ impl Server {
         let snap = ServerSnapshot {
             analysis: self.host.analysis(),
             vfs: Arc::clone(&self.vfs),
+        };
+        #[cfg(feature = "verif")]
+        let f = {
+            let task_id = crate::verif::spawn_task();
+            move |snap, params| {
+                crate::verif::enter_task(task_id);
+                let result = f(snap, params);
+                crate::verif::leave_task();
+                result
+            }
         };
         task::spawn_blocking(move || f(snap, params))
     }
